@@ -9,7 +9,9 @@ import (
 	"go/token"
 	"math/big"
 	"math/rand"
+	"encoding/json"
 	"os"
+	"os/exec"
 	"path/filepath"
 	"regexp"
 	"runtime/debug"
@@ -35,6 +37,7 @@ type cueObs struct {
 	Lang  string `json:"lang"`
 	Nr    int64  `json:"nr"`
 	ID    string `json:"id,omitempty"`
+	Text  string `json:"utc_text,omitempty"` // the time as written in the cue
 }
 
 type sampleObs struct {
@@ -143,7 +146,7 @@ func parseSubSegment(resp lib.Resp, wvtt bool, trex *mp4.TrexBox) subObs {
 				o.Status, o.Err = -1, "unparsable cue "+g[0]
 				return o
 			}
-			o.Cues = append(o.Cues, cueObs{Begin: b, End: e, UTC: u, Lang: g[5], Nr: nr, ID: g[1]})
+			o.Cues = append(o.Cues, cueObs{Begin: b, End: e, UTC: u, Lang: g[5], Nr: nr, ID: g[1], Text: g[4]})
 		}
 		if strings.Count(doc, "<p ") != len(o.Cues) {
 			o.Status, o.Err = -1, "a <p> element does not have the expected form"
@@ -184,7 +187,7 @@ func parseSubSegment(resp lib.Resp, wvtt bool, trex *mp4.TrexBox) subObs {
 					so.Line2 = body == "line:2"
 				case "payl":
 					lines := strings.SplitN(body, "\n", 2)
-					co := cueObs{Begin: t, End: t + int64(fs.Dur)}
+					co := cueObs{Begin: t, End: t + int64(fs.Dur), Text: lines[0]}
 					if len(lines) == 2 {
 						if u, ok := utcSecond(lines[0]); ok {
 							co.UTC = u
@@ -441,6 +444,10 @@ func checkSegment(c *lib.Ctx, id string, in segIn, ref lib.SegObs, ts int64, o s
 			}
 		}
 		prevEnd = g.End
+		// "showing that UTC second": the RFC 3339 time in UTC ("Z") form, whatever the time zone of the process
+		if wantText := time.Unix(g.UTC, 0).UTC().Format(time.RFC3339); g.Text != wantText {
+			fail("cue-text", fmt.Sprintf("cue %d shows the time %q, the UTC second is %q", i, g.Text, wantText))
+		}
 		if g.Lang != in.Lang || g.Nr != ref.Seq {
 			fail("cue-text", fmt.Sprintf("cue %d shows language %q and number %d, expected %q and %d", i, g.Lang, g.Nr, in.Lang, ref.Seq))
 		}
@@ -603,6 +610,9 @@ func mirrorsInMS(video, sub []sEntry, ts int64) (what string, offGrid bool) {
 // ---------------------------------------------------------------- run
 
 type runner struct {
+	extraModelCases int // cases written by child processes
+	perAsset int    // server cases per asset (0: default)
+	tz       string // time zone of this (child) process, "" in the parent
 	bnd      bool // changeTimelineTimescale converts boundaries one by one (read from the source)
 	c        *lib.Ctx
 	terms    []string
@@ -691,6 +701,9 @@ func runC12(c *lib.Ctx) error {
 	debug.SetGCPercent(400)
 	rng := rand.New(rand.NewSource(c.Seed))
 	r := &runner{c: c, distinct: map[string]bool{}}
+	if tz := os.Getenv("C12_CHILD_TZ"); tz != "" {
+		return runChildTZ(c, r, rng, tz)
+	}
 	if b, problem := timelineBoundaries(); problem != "" {
 		c.Res.Notes = append(c.Res.Notes, "changeTimelineTimescale variant: "+problem)
 	} else {
@@ -913,8 +926,18 @@ func runC12(c *lib.Ctx) error {
 		return err
 	}
 
+	// the process environment: part of the server cases again in child processes whose local time zone
+	// is not UTC (TZ in the environment of the process that runs the server)
+	zones := []string{"Europe/Helsinki", "America/St_Johns"}
+	if c.Thorough() {
+		zones = append(zones, "Asia/Kolkata", "Pacific/Chatham")
+	}
+	if err := r.spawnTZChildren(zones); err != nil {
+		return err
+	}
+
 	c.Res.Evaluations = r.evals
-	c.Res.ModelCases = len(r.terms)
+	c.Res.ModelCases = len(r.terms) + r.extraModelCases
 	c.Res.DistinctNontrivial = len(r.distinct)
 	c.Res.Rule = "direct calls (hook) of calcCueItvls with cue durations 1..1000 (breakpoints: UTC start on/next to a whole second and next to the cue end, segment end on/next to a second; non-zero start), above 1000 and <= 0; msToTTMLTime; rep2SubsTime and changeTimelineTimescale on and off the millisecond grid; served timestpp-<lang>/timewvtt-<lang> segments compared with the served reference video segment for testpic_2s, testpic_8s, the 29.97 fps WAVE asset and three generated assets (0.5 s, 1.6016 s off the ms grid, irregular), cue durations {default,1,500,900,999,1000} and {1001,1500,2500}, regions, languages, Number / SegmentTimeline-Number / SegmentTimeline-Time addressing, start_0 and non-zero start, indices next to loop wraps and far from the epoch; MPD: subtitle SegmentTemplate/SegmentTimeline against the video one; timesubsdur <= 0 and timesubsreg outside 0..1 -> 400. distinct = distinct inputs; non-trivial = at least one cue produced"
 
@@ -935,6 +958,117 @@ func genAssets() []lib.GenAsset {
 		{Name: "g12_ntsc48", Reps: []lib.GenRep{lib.VideoRep("V1", 30000, 1001, lib.UniformDurs(5, 48*1001))}},                // 1.6016 s: off the ms grid
 		{Name: "g12_irr", Reps: []lib.GenRep{lib.VideoRep("V1", 12800, 512, lib.FrameDurs(512, 50, 25, 75, 48, 52, 10, 40))}}, // irregular 0.4 .. 3 s
 	}
+}
+
+// runChildTZ: this process was started by the parent harness with TZ=<tz>: server cases over the bundled
+// assets with an in-process server whose local time zone is tz.
+func runChildTZ(c *lib.Ctx, r *runner, rng *rand.Rand, tz string) error {
+	if loc, err := time.LoadLocation(tz); err == nil {
+		time.Local = loc // what TZ=<tz> gives; set explicitly in case the zone database is not found through TZ
+	} else {
+		time.Local = time.FixedZone("XXX", 2*3600+1800)
+	}
+	r.tz = tz
+	r.perAsset = 25
+	if base, err := strconv.Atoi(os.Getenv("C12_ID_BASE")); err == nil {
+		r.nextID = base
+	}
+	if b, problem := timelineBoundaries(); problem == "" {
+		r.bnd = b
+	}
+	bundled, err := lib.LoadBundledAssets(lib.TestVodRoot)
+	if err != nil {
+		return err
+	}
+	ls, err := lib.NewLivesim(lib.TestVodRoot, nil)
+	if err != nil {
+		return err
+	}
+	var assets []*lib.TLAsset
+	for _, a := range bundled {
+		if (a.Path == "testpic_2s" || a.Path == "testpic_8s") && a.Ref() != nil {
+			assets = append(assets, a)
+		}
+	}
+	scale := 1
+	if c.Thorough() {
+		scale = 4
+	}
+	if err := r.serverCases(ls, assets, false, rng, scale); err != nil {
+		return err
+	}
+	c.Res.Evaluations = r.evals
+	c.Res.ModelCases = len(r.terms)
+	c.Res.DistinctNontrivial = len(r.distinct)
+	tag := strings.NewReplacer("/", "_").Replace(tz)
+	shard := 350
+	for s := 0; s*shard < len(r.terms); s++ {
+		end := min((s+1)*shard, len(r.terms))
+		c.WriteCases(fmt.Sprintf("cases_C12_tz_%s_%d.v", tag, s),
+			lib.CasesFile("From Verif Require Import GoSem Subs CorrC12.", "c12case", "", r.terms[s*shard:end], "model_view"))
+	}
+	return nil
+}
+
+// spawnTZChildren runs this binary again, once per zone, with TZ set, and merges the results.
+func (r *runner) spawnTZChildren(zones []string) error {
+	c := r.c
+	type res struct {
+		zone string
+		dir  string
+		out  []byte
+		err  error
+	}
+	results := make([]res, len(zones))
+	var wg sync.WaitGroup
+	for k, z := range zones {
+		wg.Add(1)
+		go func(k int, z string) {
+			defer wg.Done()
+			dir := filepath.Join(c.Out, fmt.Sprintf("tz%d", k))
+			cmd := exec.Command(os.Args[0], "-prop", c.Prop, "-tier", c.Tier, "-seed", strconv.FormatInt(c.Seed+int64(k)+1, 10), "-out", dir)
+			cmd.Env = append(os.Environ(), "TZ="+z, "C12_CHILD_TZ="+z, fmt.Sprintf("C12_ID_BASE=%d", 10000000*(k+1)))
+			out, err := cmd.CombinedOutput()
+			results[k] = res{z, dir, out, err}
+		}(k, z)
+	}
+	wg.Wait()
+	for _, x := range results {
+		if x.err != nil {
+			return fmt.Errorf("child harness with TZ=%s: %v: %s", x.zone, x.err, x.out)
+		}
+		data, err := os.ReadFile(filepath.Join(x.dir, "result.json"))
+		if err != nil {
+			return err
+		}
+		var cr lib.Result
+		if err := json.Unmarshal(data, &cr); err != nil {
+			return err
+		}
+		withTZ := func(in any) any {
+			if m, ok := in.(map[string]any); ok {
+				m["process_tz"] = x.zone
+				return m
+			}
+			return in
+		}
+		for id, in := range cr.Inputs {
+			c.Res.Inputs[id] = withTZ(in)
+		}
+		for _, f := range cr.OracleFailures {
+			f.Input = withTZ(f.Input)
+			f.What += " [server process with TZ=" + x.zone + "]"
+			c.Res.OracleFailures = append(c.Res.OracleFailures, f)
+		}
+		for k, v := range cr.Distribution {
+			c.Res.Distribution["tz:"+k] += v
+		}
+		c.Res.Distribution["process-time-zone:"+x.zone] = cr.Evaluations
+		c.Res.CaseFiles = append(c.Res.CaseFiles, cr.CaseFiles...)
+		r.evals += cr.Evaluations
+		r.extraModelCases += cr.ModelCases
+	}
+	return nil
 }
 
 func gcd(a, b int64) int64 {
@@ -1003,6 +1137,9 @@ func (r *runner) serverCases(ls *lib.Livesim, assets []*lib.TLAsset, generated b
 	outDomain := []int64{1001, 1500, 2500}
 	modes := []string{"number", "tlnr", "tlt"}
 	perAsset := 200 * scale
+	if r.perAsset > 0 {
+		perAsset = r.perAsset * scale
+	}
 	for _, a := range assets {
 		ref := a.Ref()
 		N := int64(len(ref.Segs))
@@ -1574,6 +1711,14 @@ func replayC12(c *lib.Ctx) error {
 		in, err := lib.LoadReplayInput[segIn](c.Replay)
 		if err != nil {
 			return err
+		}
+		if ptz, _ := lib.LoadReplayInput[struct {
+			TZ string `json:"process_tz"`
+		}](c.Replay); ptz.TZ != "" {
+			if loc, err := time.LoadLocation(ptz.TZ); err == nil {
+				time.Local = loc // the server of the replay runs in a process with this local time zone
+				fmt.Printf("replay C12: local time zone of the process set to %s\n", ptz.TZ)
+			}
 		}
 		var ls *lib.Livesim
 		var a *lib.TLAsset
